@@ -1,4 +1,4 @@
 SPECIFICATION Spec
-CONSTANTS MaxN = 8 MaxR = 4 MaxTofMash = 3 MaxRB = 6
+CONSTANTS MaxN = 8 MaxR = 3 MaxTofMash = 5 MaxRB = 6
 INVARIANTS Inv1 Inv2 Inv3 Inv4 Inv5 Inv6
 CHECK_DEADLOCK FALSE
